@@ -6,6 +6,7 @@ use crate::util::*;
 use crate::{Ctx, Tier};
 use std::sync::atomic::{AtomicU64, Ordering::Relaxed};
 use std::sync::Mutex;
+use yuvxyb::{LinearRgb, Rgb};
 
 const ONE_BITS: u32 = 0x3F80_0000;
 /// pixels per library call; odd on purpose so that 3*PX is not a multiple of 2, 4, 8
@@ -370,6 +371,20 @@ fn run(ctx: &Ctx, roundtrip: bool) {
                     extra_evals += img.len() as u64 * 3;
                     check_image(img, "hostile-companions");
                 }
+                // pixel-doubled content (every even-indexed pixel equals its successor), even and odd pixel counts
+                {
+                    let mut img: Vec<[f32; 3]> = Vec::with_capacity(2 * base.len() + 1);
+                    for a in base.iter() {
+                        img.push([*a, 1.0 - *a, *a * 0.5]);
+                        img.push([*a, 1.0 - *a, *a * 0.5]);
+                    }
+                    extra_evals += img.len() as u64 * 3;
+                    check_image(img.clone(), "pixel-doubled");
+                    img.push([0.25, 0.5, 0.75]);
+                    check_image(img, "pixel-doubled");
+                    // two-tone frames
+                    check_image(vec![[0.2, 0.4, 0.6], [0.2, 0.4, 0.6], [0.7, 0.1, 0.3], [0.7, 0.1, 0.3], [0.2, 0.4, 0.6], [0.2, 0.4, 0.6], [0.7, 0.1, 0.3], [0.7, 0.1, 0.3]], "pixel-doubled");
+                }
                 // letterboxed: 16-pixel rows, whole rows of black above and between the rows of subjects, none below
                 {
                     let img: Vec<[f32; 3]> = base.iter().map(|a| [*a, 1.0 - *a, *a]).collect();
@@ -377,8 +392,65 @@ fn run(ctx: &Ctx, roundtrip: bool) {
                     extra_evals += v.len() as u64 * 3;
                     check_image(v, "letterboxed");
                 }
+                // whole frames with a relation between the channels that holds for *every* pixel: two channels equal and the
+                // third one lower / higher (tinted monochrome, yellow, cyan, magenta swatches), as 1-pixel and 4-pixel frames
+                {
+                    let vals = [0.0f32, 0.2, 0.5, 0.8, 1.0, 0.003, 0.9999];
+                    for (ai, a) in vals.iter().enumerate() {
+                        for b in vals.iter() {
+                            if a == b {
+                                continue;
+                            }
+                            for pat in 0..3 {
+                                let mk = |a: f32, b: f32| match pat {
+                                    0 => [a, a, b],
+                                    1 => [a, b, a],
+                                    _ => [b, a, a],
+                                };
+                                let a2 = vals[(ai + 1) % vals.len()];
+                                extra_evals += 15;
+                                check_image(vec![mk(*a, *b)], "uniform-channel-relation");
+                                if a2 != *b {
+                                    check_image(vec![mk(*a, *b), mk(a2, *b), mk(*a, *b), mk(a2, *b)], "uniform-channel-relation");
+                                }
+                            }
+                        }
+                    }
+                }
+                // the curve must be the same whatever primaries the image carries: grey ramps (which every D65 primaries
+                // conversion maps to themselves within 1e-5) tagged with other primaries, gamma -> linear
+                if !roundtrip && dir == 0 {
+                    for p in [CP::BT470BG, CP::BT2020, CP::P3Display] {
+                        let ramp: Vec<[f32; 3]> = (0..=1024).map(|k| [k as f32 / 1024.0; 3]).collect();
+                        let n = ramp.len();
+                        let Ok(rgb) = Rgb::new(ramp.clone(), n, 1, t, p) else { continue };
+                        let Ok(lin) = LinearRgb::try_from(rgb) else { continue };
+                        extra_evals += n as u64 * 3;
+                        let mut w = Worst::<At>::new();
+                        for (q, o) in ramp.iter().zip(lin.data().iter()) {
+                            let want = model(t, 0, q[0] as f64);
+                            // BT.470M has another white point (C): its greys are adapted, not kept; judge the D65 sets only
+                            if p == CP::BT470M {
+                                continue;
+                            }
+                            for c in 0..3 {
+                                w.upd(((o[c] as f64 - want).abs() - 3e-5 * want.abs().max(1.0)).max(0.0), (q[0], o[c], want));
+                            }
+                        }
+                        let budget = budget_c03(t, 0);
+                        if !(w.err < budget) {
+                            if let Some((x, got, want)) = w.at {
+                                ev::violation(
+                                    format!("C03|grey-ramp-other-primaries|{t:?}|to_linear"),
+                                    format!("grey {x} tagged ({t:?}, {p:?}) linearises to {got:e}; the curve gives {want:e} and the primaries conversion keeps greys (|err| - 3e-5 = {:.3e} >= {budget:e})", w.err),
+                                    J::obj().set("kind", "curve").set("transfer", format!("{t:?}")).set("dir", 0).set("x_bits", x.to_bits()).set("context", format!("primaries {p:?}")),
+                                );
+                            }
+                        }
+                    }
+                }
                 // everything as ONE image of more than 2^20 pixels, with exact 0.0 / 1.0 sprinkled through it
-                if !lite {
+                if !lite || ctx.flag("big") {
                     let mut big: Vec<f32> = (0..total).step_by(if matches!(inputs, Inputs::All) { 251 } else { 1 }).map(|i| inputs.get(i)).collect();
                     while big.len() < 3 * ((1 << 20) + 7) {
                         let l = big.len();
